@@ -107,7 +107,7 @@ pub fn bad(w: &mut RouterWorld, cfg: &Cfg, ci: usize, kind: u8) {
     w.send(ci, txs);
 }
 
-pub const BATCH_KINDS: u8 = 8;
+pub const BATCH_KINDS: u8 = 9;
 
 pub fn batch(w: &mut RouterWorld, cfg: &Cfg, ci: usize, kind: u8) {
     let f0 = cfg.filters.first().cloned().unwrap_or_else(|| "a/b".into());
